@@ -160,3 +160,47 @@ func VerifLemma_C15E_WriteWrappers() {
 	verifAssert(rec.deleteAlls == 1 && rec.deleteAllPath == prefix+"dir", "DeleteAll reaches the delegate with the mapped prefix")
 	verifAssert((daerr != nil) == rec.deleteFail, "DeleteAll fails iff the delegate's DeleteAll fails")
 }
+
+// VerifLemma_C15E_LimitWriteBucket: LimitWriteBucket(limit) over a recording delegate, two objects with one Write each
+// (the limit is per bucket). Reference: a write of len bytes is refused (IsWriteLimitReached, nothing reaches the
+// delegate, n=0) iff size+len > limit; otherwise it goes to the delegate and the bucket size grows by the number of
+// bytes the delegate actually took (short write). A refused or failed write is always reported.
+func VerifLemma_C15E_LimitWriteBucket() {
+	rec := &vdRecBucket{}
+	rec.writer = &vdRecWriter{b: rec, writeFail: verifNondetBool()}
+	limit := verifNondetChoice(5) - 1 // -1 (same as 0) .. 3
+	wb := LimitWriteBucket(rec, limit)
+	eff := limit
+	if eff < 0 {
+		eff = 0
+	}
+	ctx := context.Background()
+	size := 0
+	var wantDelegate []byte
+	for i := 0; i < 2; i++ {
+		data := verifNondetBytes(verifParam("DATA"))
+		w, err := wb.Put(ctx, []string{"a", "b"}[i])
+		verifAssert(err == nil, "Put through the limit wrapper succeeds")
+		if err != nil {
+			return
+		}
+		n, werr := w.Write(data)
+		if size+len(data) > eff {
+			verifCover("limit reached")
+			verifAssert(werr != nil && IsWriteLimitReached(werr) && n == 0, "a write beyond the limit is refused with a write-limit error")
+		} else {
+			took := len(data)
+			if rec.writer.writeFail && len(data) > 0 {
+				took = len(data) - 1
+			}
+			wantDelegate = append(wantDelegate, data[:took]...)
+			size += took
+			verifAssert(n == took, "an accepted write returns the delegate's byte count")
+			verifAssert((werr != nil) == rec.writer.writeFail, "an accepted write fails iff the delegate's Write fails")
+			verifAssert(werr == nil || !IsWriteLimitReached(werr), "a delegate failure is not reported as a limit error")
+		}
+		verifAssert(string(rec.writer.wrote) == string(wantDelegate), "exactly the accepted bytes reached the delegate")
+		verifAssert(w.Close() == nil, "Close through the limit wrapper reaches the delegate")
+	}
+	verifAssert(rec.writer.closed == 2, "both objects are closed exactly once")
+}
